@@ -31,7 +31,8 @@ CONSTANTS Signers, Hashes,      \* sets of small integers
           MaxAttrs,             \* Conflicts attributes per on-chain transaction
           CandAttrs,            \* Conflicts attributes per candidate that is not on chain
           MaxBlocks, MaxTxPerBlock, MaxTxTotal,
-          CheckStay             \* evaluate the after-block flags (costly)
+          CheckStay,            \* evaluate the after-block flags (costly)
+          GCLag                 \* blocks a collector stays behind the window (the code: 1)
 
 VARIABLES chain, st, stored, gcLast, gcErrs, stayok, propok
 vars == <<chain, st, stored, gcLast, gcErrs, stayok, propok>>
@@ -80,8 +81,8 @@ AddBlock(b) ==
     /\ st' = StoreBlock(st, b, h + 1)
     /\ stored' = stored \cup {h + 1}
     /\ IF ~CheckStay THEN stayok' = TRUE /\ propok' = TRUE
-       ELSE \E cs \in {Cand(chain)} :
-            /\ stayok' = \A c \in cs : (~MustReject(chain, c) /\ Keeps(b, c)) => ~MustReject(chain', c)
+       ELSE \E cs \in {Cand(chain)}, v0 \in {View(chain)}, v1 \in {View(Append(chain, b))} :
+            /\ stayok' = \A c \in cs : (~RejectV(v0, c) /\ Keeps(b, c)) => ~RejectV(v1, c)
             /\ propok' = \A c \in cs : (Answer(st, c, h) = "ok" /\ Keeps(b, c)) => Answer(st', c, h + 1) = "ok"
     /\ UNCHANGED <<gcLast, gcErrs>>
 
@@ -97,7 +98,7 @@ ProposeAndAccept == AddSomeBlock
 
 GC ==
     LET i == gcLast + 1 IN
-    /\ i + Window <= Len(chain)
+    /\ i + Window + GCLag <= Len(chain)
     /\ gcLast' = i
     /\ IF i \in stored
        THEN LET ds == DeleteBlock(st, chain[i], i) IN
@@ -116,8 +117,12 @@ Next == AddSomeBlock \/ GC \/ Restart
 Spec == Init /\ [][Next]_vars
 
 ----------------------------------------------------------------------------
-InvSound  == \A c \in Cand(chain) : MustReject(chain, c) => Answer(st, c, Len(chain)) # "ok"
-InvAdmits == \A c \in Cand(chain) : MustAccept(chain, c) => Answer(st, c, Len(chain)) = "ok"
+\* (the view of the chain is bound once per state: MustReject(chain, c) = RejectV(View(chain), c) by definition)
+InvSound  == \E v \in {View(chain)} : \A c \in Cand(chain) : RejectV(v, c) => Answer(st, c, Len(chain)) # "ok"
+InvAdmits == \E v \in {View(chain)} : \A c \in Cand(chain) : AcceptV(v, c) => Answer(st, c, Len(chain)) = "ok"
+\* both at once (one pass over the candidates; used by the large configurations)
+InvAnswers == \E v \in {View(chain)} : \A c \in Cand(chain) :
+                 LET a == Answer(st, c, Len(chain)) IN (RejectV(v, c) => a # "ok") /\ (AcceptV(v, c) => a = "ok")
 InvStay   == stayok
 InvProp   == propok
 \* information: DeleteBlock can return early on the unchanged code (two transactions of one block naming the same hash)
